@@ -5,6 +5,7 @@ import (
 	"sort"
 	"strings"
 	"testing"
+	"time"
 
 	"github.com/idena-network/idena-go/blockchain/fee"
 	"github.com/idena-network/idena-go/blockchain/types"
@@ -44,6 +45,12 @@ type seqEnv struct {
 	counts     map[string]int
 	periods    map[string]bool
 	epochs     int
+
+	// restart test only (node with the on-disk tx keeper)
+	dataDir   string
+	startedAt time.Time
+	restarts  int
+	included  map[common.Hash]uint64
 }
 
 func (e *seqEnv) note(format string, args ...interface{}) {
@@ -449,6 +456,9 @@ func (e *seqEnv) block(t *rapid.T, by *sim.Replica, empty bool) {
 	// clause: none of the block's transactions remain (the pool is told about the block unless the node syncs)
 	for _, tx := range blk.Body.Transactions {
 		h := tx.Hash()
+		if e.included != nil {
+			e.included[h] = blk.Height()
+		}
 		if _, ok := e.live[h]; ok {
 			delete(e.live, h)
 			e.counts["release.included"]++
